@@ -43,6 +43,40 @@ theorem ok_group {s : St} {outs : List Out} (h : ∀ o, o ∈ outs → OutOK s o
 theorem ok_trivial (s : St) (o : Out) (h : outPids o = []) : OutOK s o := by
   intro q b hm; rw [h] at hm; cases hm
 
+/-- the invariant only reads the process table, tree, name index, counter, flights and stops -/
+theorem inv_congr {s s' : St} (h : Inv s) (e1 : s'.procs = s.procs) (e2 : s'.tree = s.tree) (e3 : s'.names = s.names)
+    (e4 : s'.counter = s.counter) (e5 : s'.flights = s.flights) (e6 : s'.stops = s.stops) : Inv s' where
+  treeRun := by
+    intro k p hm; rw [e2] at hm
+    rw [phaseOf_congr e1, pathOf_congr e1]; exact h.treeRun k p hm
+  runTree := by
+    intro p hp; rw [phaseOf_congr e1] at hp
+    rw [e2, pathOf_congr e1]; exact h.runTree p hp
+  namesRun := by
+    intro n q hq; rw [e3] at hq
+    rw [phaseOf_congr e1]; exact h.namesRun n q hq
+  treeNames := by
+    intro k p hp; rw [e2] at hp
+    rw [e3]; exact h.treeNames k p hp
+  flights := by
+    intro k p kind hm; rw [e5] at hm
+    rw [phaseOf_congr e1, pathOf_congr e1, e2]; exact h.flights k p kind hm
+  keys := by rw [e5]; exact h.keys
+  count := by
+    rw [e4, h.count]; unfold runningCount isRunning
+    rw [e1]
+    apply congrArg
+    apply filter_range_congr
+    intro i _
+    rw [phaseOf_congr e1]
+  noStops := by rw [e6]; exact h.noStops
+
+theorem keeps_congr {s s' : St} (e1 : s'.procs = s.procs) : Keeps s s' := by
+  intro q hq; rw [phaseOf_congr e1]; exact hq
+
+theorem okOf_congr {s s' : St} {o : Out} (h : OutOK s o) (e1 : s'.procs = s.procs) : OutOK s' o :=
+  okOf_keeps h (keeps_congr e1)
+
 theorem step_ok {s : St} (h : Inv s) (op : Op) (hop : spawnOnly op = true) :
     Inv (step s op).1 ∧ OutOK (step s op).1 (step s op).2 ∧ Keeps s (step s op).1 := by
   cases op with
@@ -65,8 +99,9 @@ theorem step_ok {s : St} (h : Inv s) (op : Op) (hop : spawnOnly op = true) :
       have hk : k = key := by simpa using List.find?_some hf
       subst hk
       obtain ⟨a, b, c, d⟩ := inv_end h k p kind (List.mem_of_find?_eq_some hf)
-      refine ⟨a, ?_, d⟩
-      rw [b]; exact okPid_end c
+      simp only []
+      refine ⟨inv_congr a rfl rfl rfl rfl rfl rfl, ?_, keeps_trans d (keeps_congr rfl)⟩
+      rw [b]; exact okOf_congr (okPid_end c) rfl
   | par rs =>
     simp only [step]
     split
@@ -84,6 +119,33 @@ theorem step_ok {s : St} (h : Inv s) (op : Op) (hop : spawnOnly op = true) :
   | kBegin p => cases hop
   | kEnd p => cases hop
   | bad => exact ⟨h, ok_trivial _ _ rfl, keeps_refl s⟩
+  | follow r =>
+    simp only [step]
+    split
+    · exact ⟨h, ok_trivial _ _ rfl, keeps_refl s⟩
+    · split
+      · rename_i o ho
+        refine ⟨h, ?_, keeps_refl s⟩
+        -- outputs of the pre-flight checks carry no un-shared PID
+        have : outPids o = [] := by
+          unfold preFlight at ho
+          (repeat' split at ho) <;> first | (cases ho; done) | (injection ho with ho; subst ho; rfl) | (cases ho; rfl)
+        exact ok_trivial _ _ this
+      · exact ⟨inv_congr h rfl rfl rfl rfl rfl rfl, ok_trivial _ _ rfl, keeps_congr rfl⟩
+  | cancel key =>
+    simp only [step]
+    split
+    · split
+      · exact ⟨inv_congr h rfl rfl rfl rfl rfl rfl, ok_trivial _ _ rfl, keeps_congr rfl⟩
+      · exact ⟨inv_congr h rfl rfl rfl rfl rfl rfl, ok_trivial _ _ rfl, keeps_congr rfl⟩
+    · exact ⟨h, ok_trivial _ _ rfl, keeps_refl s⟩
+  | join key =>
+    simp only [step]
+    split
+    · exact ⟨h, ok_trivial _ _ rfl, keeps_refl s⟩
+    · split
+      · exact ⟨inv_congr h rfl rfl rfl rfl rfl rfl, ok_trivial _ _ rfl, keeps_congr rfl⟩
+      · exact ⟨h, ok_trivial _ _ rfl, keeps_refl s⟩
 
 theorem run_ok : ∀ (ops : List Op) (s : St), Inv s → ops.all spawnOnly = true →
     Inv (run s ops).1 ∧ Keeps s (run s ops).1 ∧ (∀ o, o ∈ (run s ops).2 → OutOK (run s ops).1 o)
